@@ -379,6 +379,50 @@ pub fn spaces(tier: Tier) -> Vec<Space> {
             }
         }));
     }
+    // (a5) stack-depth sweep: programs that build a main (and alt) stack of every depth 1..=N, then look at it
+    {
+        let nmax: u64 = if thorough { 2500 } else { 1100 };
+        v.push(Space::new("stack-depth-sweep", nmax * 4, move |case, acc| {
+            let c = crate::engine::coords(case.idx, &[nmax, 4]);
+            let n = c[0] as usize + 1;
+            let mut toks: Vec<Tok> = vec![];
+            let pname = match c[1] {
+                0 => {
+                    toks.extend(std::iter::repeat(Tok::Op(0x51)).take(n));
+                    toks.push(Tok::Op(0x74));
+                    "n x OP_1, DEPTH"
+                }
+                1 => {
+                    toks.push(Tok::Op(0x55));
+                    toks.extend(std::iter::repeat(Tok::Op(0x51)).take(n - 1));
+                    toks.extend(pushes_for(&vec![ri::enc(&num_bigint::BigInt::from(n as i64 - 1))], &vec![]));
+                    toks.push(Tok::Op(0x79));
+                    "OP_5, (n-1) x OP_1, <n-1> PICK"
+                }
+                2 => {
+                    for _ in 0..n / 2 {
+                        toks.push(Tok::Op(0x52));
+                        toks.push(Tok::Op(0x6b));
+                    }
+                    toks.extend(std::iter::repeat(Tok::Op(0x51)).take(n - n / 2));
+                    toks.push(Tok::Op(0x74));
+                    toks.push(Tok::Op(0x6c));
+                    "n/2 x (OP_2 TOALTSTACK), n/2 x OP_1, DEPTH, FROMALTSTACK"
+                }
+                _ => {
+                    toks.push(Tok::Op(0x55));
+                    toks.extend(std::iter::repeat(Tok::Op(0x51)).take(n - 1));
+                    toks.extend(pushes_for(&vec![ri::enc(&num_bigint::BigInt::from(n as i64 - 1))], &vec![]));
+                    toks.push(Tok::Op(0x7a));
+                    "OP_5, (n-1) x OP_1, <n-1> ROLL"
+                }
+            };
+            let desc = || json!({"stack_depth": n, "program": pname});
+            if let Some(d) = check_program(&toks, acc, case, &desc) {
+                report(acc, case, &toks, &d, &desc);
+            }
+        }));
+    }
     // (b) alt stack: every opcode with a non-empty alt stack (must stay untouched) and FROMALTSTACK/TOALTSTACK round trips
     {
         let (vals, specs) = (vals.clone(), specs.clone());
